@@ -141,6 +141,19 @@ Definition w_ud (w : W) : list S := snd (snd w).
 Definition rnea_of_fd (t : tree X) := rnea K A (fun w => nd (w_x w)) (fun w => dy (w_x w)) w_ud (fd K A nd dy t).
 (** M * (M^-1 f) *)
 Definition mulM_of_mulMInv (t : tree X) := mulM K (fun w => nd (w_x w)) w_ud (mulMInv K A nd dy t).
+
+(** ** mobilizer reaction forces at the body origins, two routes (property C14).
+    Articulated route (calcMobilizerReactionForces): F_B = P+ (~phi A_parent) + z+, an outward pass over the
+    forward-dynamics result whose state is (acceleration of the parent, reaction). *)
+Definition react_step (st : V * V) (w : W) : V * V :=
+  (fst (snd w),
+   vadd K (papply A (a_Pp (snd (fst (fst w)))) (phiT K (n_l (nd (w_x w))) (fst st))) (z_zp (snd (fst w)))).
+Definition react_art (t : tree X) : tree (W * (V * V)) := outward react_step (vzero K, vzero K) (fd K A nd dy t).
+(** Free-body route (calcMobilizerReactionForcesUsingFreebodyMethod): the inward force accumulation of inverse dynamics
+    run on the body accelerations that forward dynamics produced:  F_B = Mk A_B + b_B - F_B,applied + sum_children phi F_child *)
+Definition react_fb (t : tree X) : tree ((W * V) * V) :=
+  accum K (fun wv => nd (w_x (fst wv))) (rnea_force K A (fun w => nd (w_x w)) (fun w => dy (w_x w)))
+        (tmap (fun w : W => (w, fst (snd w))) (fd K A nd dy t)).
 End Compose.
 
 (** ** concrete articulated inertia over a [NumOps]: (mass M, massMoment F, inertia J) as SimTK::ArticulatedInertia *)
@@ -241,4 +254,9 @@ Definition out_minv (t : tree cbx) : list (nat * list T) :=
 (** inverse dynamics of the model's own forward dynamics (zero over R by theorem fd_then_rnea_zero) *)
 Definition out_rnea_of_fd (t : tree cbx) : list (nat * list T) :=
   map (fun r => (c_idx (w_x (fst (fst (fst r)))), snd r)) (flatten (rnea_of_fd KKc AAc c_nd c_dy t)).
+(** mobilizer reactions at the body origins by the two routes (equal over R by theorem reaction_routes_agree) *)
+Definition out_react_art (t : tree cbx) : list (nat * SVt) :=
+  map (fun r => (c_idx (w_x (fst r)), snd (snd r))) (flatten (react_art KKc AAc c_nd c_dy t)).
+Definition out_react_fb (t : tree cbx) : list (nat * SVt) :=
+  map (fun r => (c_idx (w_x (fst (fst r))), snd r)) (flatten (react_fb KKc AAc c_nd c_dy t)).
 End Run.
